@@ -144,6 +144,14 @@ def status_clauses(unit, case, a, out, named_errors):
     yield "C07", "command-sent-exactly-once", len(sent) == 1
     good = a.status == T.STATUS["GOOD"]
     cc = a.status == T.STATUS["CHECK_CONDITION"]
+    no_sense = a.sense is None or len(a.sense) == 0
+    if no_sense:
+        # nothing to attach: a normal return would be indistinguishable from success
+        if out.kind == "return":
+            yield "C07", "normal-return-only-if-GOOD (no sense available to attach)", good
+        else:
+            yield "C07", "never-raises-when-GOOD", V.bnot(good)
+        return
     if out.kind == "return":
         if case["raw"]:
             # with raw sense explicitly requested a CHECK CONDITION may be reported through cmd.raw_sense_data
@@ -200,13 +208,28 @@ class IscsiExecuteStatus(_DeviceUnit):
 
         return [D.execute, D.__init__, D.open, ss.SCSICheckCondition.__init__]
 
-    cases = SgioExecuteStatus.cases
-    inputs = SgioExecuteStatus.inputs
-    requires = SgioExecuteStatus.requires
+    def cases(self, tier):
+        cs = SgioExecuteStatus.cases(self, tier)
+        # the target / binding may also offer no sense at all, or an empty buffer (the code tolerates a missing
+        # raw_sense attribute): such a command must still not look successful
+        cs += [{"raw": r, "senselen": n} for r in (False, True) for n in (0, -1)]
+        return cs
+
+    def inputs(self, case):
+        if case["senselen"] <= 0:
+            return {"status": U(8)}
+        return SgioExecuteStatus.inputs(self, case)
+
+    def requires(self, case, a):
+        if case["senselen"] <= 0:
+            return []
+        return SgioExecuteStatus.requires(self, case, a)
 
     def run(self, X, case, a):
         w = World()
         w.status = a.status
+        if case["senselen"] <= 0:
+            a["sense"] = None if case["senselen"] < 0 else bytes()
         w.sense = a.sense
         self.world = w
         with world_installed(w):
